@@ -96,13 +96,43 @@ func newDevice(ch, note int, out chan midi.Event, midiIn chan midi.Event) *devic
 
 var tmplCache = map[string]*device.Device{}
 
-type fakeServer struct{ leds []openrgb.LED }
+// fakeServer: with faults > 0 the environment may answer up to that many calls with an error (every placement is
+// explored: an explicit choice at each call while budget is left), or die for good (all later calls fail).
+type fakeServer struct {
+	leds   []openrgb.LED
+	faults int
+	failed int
+	dead   bool
+}
+
+func (f *fakeServer) fault(what string) bool {
+	if f.dead {
+		return true
+	}
+	if f.failed >= f.faults {
+		return false
+	}
+	switch vsched.Choose(3, "openrgb-"+what) {
+	case 1:
+		f.failed++
+		return true
+	case 2:
+		f.failed++
+		f.dead = true
+		return true
+	}
+	return false
+}
 
 func (f *fakeServer) ControllerCount() (int, error) { return 1, nil }
 func (f *fakeServer) Controller(i int) (openrgb.Device, error) {
 	return openrgb.Device{Type: 5, Name: "Fake Keyboard", Location: "HID: /dev/hidraw0", LEDs: f.leds, Colors: make([]openrgb.Color, len(f.leds))}, nil
 }
 func (f *fakeServer) UpdateLEDs(i int, colors []openrgb.Color) error {
+	if f.fault("update") {
+		vsched.Observe("frame", "failed")
+		return fmt.Errorf("fake openrgb: connection lost")
+	}
 	allRed := true
 	var h uint32 = 2166136261
 	for _, c := range colors {
@@ -116,15 +146,17 @@ func (f *fakeServer) UpdateLEDs(i int, colors []openrgb.Color) error {
 }
 
 type scen struct {
-	dBound int // added to the tier's preemption bound
-	unbounded bool // explore every interleaving (state-fingerprint pruning makes it finite)
+	dBound        int  // added to the tier's preemption bound
+	unbounded     bool // explore every interleaving (state-fingerprint pruning makes it finite)
 	outCap        int  // capacity of the shared output channel (default 1)
 	noEarlyTimers bool // timers / sleeps only fire when nothing else can run (keeps the OpenRGB connect loop out of the way)
-	name   string
-	rgb    bool
-	midiIn bool
-	events []*input.InputEvent
-	two    bool
+	name          string
+	rgb           bool
+	midiIn        bool
+	events        []*input.InputEvent
+	two           bool
+	pace          int // the feeder sleeps this many times before every event and before closing the stream (lets LED frames happen in between)
+	faults        int // number of OpenRGB calls the environment may fail (every placement)
 }
 
 func drain(out chan midi.Event, tag string) {
@@ -142,11 +174,16 @@ func drain(out chan midi.Event, tag string) {
 
 func (sc scen) run() {
 	if sc.rgb {
-		srv := &fakeServer{}
+		srv := &fakeServer{faults: sc.faults}
 		for _, n := range []string{"Key: A", "Key: S", "Key: Escape", "Key: F2", "Key: Q"} {
 			srv.leds = append(srv.leds, openrgb.LED{Name: n})
 		}
-		openrgb.VerifConnect = func(string, int) (openrgb.Server, error) { return srv, nil }
+		openrgb.VerifConnect = func(string, int) (openrgb.Server, error) {
+			if srv.fault("connect") {
+				return nil, fmt.Errorf("fake openrgb: connection refused")
+			}
+			return srv, nil
+		}
 	} else {
 		openrgb.VerifConnect = nil
 	}
@@ -177,7 +214,13 @@ func (sc scen) run() {
 		})
 		vsched.Go("feeder"+tag, func() {
 			for _, e := range evs {
+				for i := 0; i < sc.pace; i++ {
+					vsched.Sleep(300 * time.Millisecond)
+				}
 				vsched.Out[*input.InputEvent](in).Send(e)
+			}
+			for i := 0; i < sc.pace; i++ {
+				vsched.Sleep(300 * time.Millisecond)
 			}
 			vsched.Observe("stream-closed"+tag, true)
 			vsched.CloseBidi(in)
@@ -246,7 +289,7 @@ func (sc scen) check(solo map[string][]string) func(x *vsched.Execution) []vsche
 					last = o.Val.(string)
 				}
 			}
-			if last != "" && !strings.HasSuffix(last, "allred=true") {
+			if last != "" && last != "failed" && !strings.HasSuffix(last, "allred=true") {
 				vs = append(vs, vsched.Violation{"final-frame-not-red", sc.name, "LED feedback was connected but the last frame sent before the device ended is not all red: " + last})
 			}
 		}
@@ -288,8 +331,11 @@ func scenarios(tier string) []scen {
 	// the panic action replaces the MIDI-input tracker: any schedule exposes a missing lock through the happens-before
 	// detector, so the non-preemptive schedules suffice in the quick tier (129 sends make higher bounds expensive)
 	s = append(s, scen{name: "no-openrgb, panic while midi input is live", events: []*input.InputEvent{key("KEY_A", 1), key("KEY_ESC", 1)}, midiIn: true, dBound: -2, noEarlyTimers: true, outCap: 512})
+	// environment faults: the LED server refuses / drops up to two calls, or goes away for good, at every possible call
+	s = append(s, scen{name: "openrgb with faults (<=2 failing calls or server gone), press + release", events: []*input.InputEvent{key("KEY_A", 1), key("KEY_A", 0)}, rgb: true, faults: 2, pace: 2, dBound: -2})
 	if tier == "thorough" {
 		s = append(s,
+			scen{name: "openrgb with faults (<=3 failing calls or server gone), midi input live", events: two, rgb: true, midiIn: true, faults: 3, pace: 2, dBound: -1},
 			scen{name: "openrgb connected, octave change + release", events: []*input.InputEvent{key("KEY_A", 1), key("KEY_F2", 1), key("KEY_A", 0)}, rgb: true},
 			scen{name: "openrgb connected, panic while midi input is live", events: []*input.InputEvent{key("KEY_A", 1), key("KEY_ESC", 1)}, rgb: true, midiIn: true, dBound: -2},
 			scen{name: "two devices, press and release", events: []*input.InputEvent{key("KEY_A", 1), key("KEY_A", 0)}, two: true, noEarlyTimers: true},
